@@ -49,6 +49,10 @@ class Intrinsics:
         if isinstance(t, ExtV):
             n = t.name
             short = n.split('.')[-1]
+            if isinstance(v, SObj) and v.cls is not None and n in P.index.external_bases(v.cls):
+                return True       # stand-in class deriving from the external class (e.g. spec.c06.PyUSub(ast.USub))
+            if type(v).__name__ == 'FreeCons':
+                return v.name == n
             if n in ('builtins.int',):
                 return is_intlike(v) or (isinstance(v, EnumV) and self._is_intenum(P, v))
             if n == 'builtins.bool':
@@ -56,7 +60,7 @@ class Intrinsics:
             if n == 'builtins.float':
                 return isinstance(v, (float, SymFloat))
             if n == 'builtins.str':
-                return isinstance(v, str)
+                return isinstance(v, str) or type(v).__name__ == 'SymStr'
             if n == 'builtins.tuple':
                 return isinstance(v, tuple)
             if n == 'builtins.list':
@@ -122,6 +126,10 @@ class Intrinsics:
         hook = self.ex.external_contract(name)
         if hook is not None:
             return hook(P, args, kwargs)
+        if name.startswith('ast.') and name[4:5].isupper() and not args:
+            # Python `ast` node constructor with keyword fields: an opaque free constructor
+            from .strings import FreeCons
+            return FreeCons(name, dict(kwargs))
         raise Unsupported(f'external call {name}')
 
     def call_bound(self, P, name, recv, args, kwargs):
@@ -148,6 +156,9 @@ class Intrinsics:
     def b_len(self, P, v):
         if isinstance(v, (tuple, list, dict, set, str)):
             return len(v)
+        if type(v).__name__ == 'SymStr':
+            from . import strings
+            return strings.length(P, v)
         if isinstance(v, SObj):
             return P.call_method(v, '__len__', [], {})
         if isinstance(v, seqs.KINDS):
@@ -199,6 +210,9 @@ class Intrinsics:
         return simp(z3.If(x >= 0, x, -x))
 
     def b_int(self, P, v=0, base=None):
+        if type(v).__name__ == 'SymStr':
+            from . import strings
+            return strings.to_int(P, v, 10 if base is None else base)
         if base is not None:
             if isinstance(v, str) and isinstance(base, int):
                 try:
@@ -227,6 +241,8 @@ class Intrinsics:
             except ValueError:
                 from .interp import SymRaise, mk_exc
                 raise SymRaise(mk_exc('ValueError'))
+        if isinstance(v, SymFloat):
+            return self._float_int(P, v)
         if is_sym_real(v):
             # truncation toward zero
             f = z3.ToInt(v)
@@ -250,6 +266,10 @@ class Intrinsics:
     def b_str(self, P, v=''):
         if isinstance(v, str):
             return v
+        if isinstance(v, SymFloat):
+            return self._float_str(P, v)
+        if isinstance(v, float):
+            return str(v)
         if isinstance(v, int) and not is_z3(v):
             return str(v)
         return Opaque('str')
@@ -606,7 +626,87 @@ class Intrinsics:
     def m_float_is_integer(self, P, recv):
         if isinstance(recv, float):
             return recv.is_integer()
+        if isinstance(recv, SymFloat):
+            # finite and no fractional bit: c * 2^exp with exp >= 0, or 2^-exp divides c
+            sg, E, c, exp = self._fdecode(recv)
+            return simp(z3.And(E != 2047, z3.Or(c == 0, exp >= 0, c % theory.pow2(-exp) == 0)))
         raise Unsupported('float.is_integer symbolic')
+
+    @staticmethod
+    def _fdecode(v):
+        """binary64 fields of a SymFloat: (sign bit, biased exponent E, integer significand c, exponent exp) with
+        |value| = c * 2^exp for E != 2047 (IEEE 754 binary64 layout)"""
+        bits = v.bits
+        sg = bits / (1 << 63)
+        E = (bits / (1 << 52)) % 2048
+        M = bits % (1 << 52)
+        c = z3.If(E == 0, M, M + (1 << 52))
+        exp = z3.If(E == 0, z3.IntVal(-1074), E - 1075)
+        return sg, E, c, exp
+
+    def _float_int(self, P, v):
+        """int(float): truncation toward zero; ValueError for nan, OverflowError for inf"""
+        from .interp import SymRaise, mk_exc
+        sg, E, c, exp = self._fdecode(v)
+        M = v.bits % (1 << 52)
+        if P.branch(simp(E == 2047), 'float is inf/nan'):
+            if P.branch(simp(M == 0), 'float is inf'):
+                raise SymRaise(mk_exc('OverflowError'), 'int(inf)')
+            raise SymRaise(mk_exc('ValueError'), 'int(nan)')
+        if P.branch(simp(exp >= 0), 'float exp>=0'):
+            mag = c * theory.pow2(exp)
+        else:
+            mag = c / theory.pow2(-exp)
+        return simp(z3.If(sg == 1, -mag, mag))
+
+    def _float_str(self, P, v):
+        """
+        str(float) / repr(float).  TRUSTED model (CPython float_repr_style 'short'): the result r is a spelling of the
+        decimal literal grammar iff v is finite; it carries a minus sign iff the sign bit is set; and it round-trips,
+        i.e. v is the double nearest to the number r denotes (stated as the necessary condition
+        2*|den10(r) - |v|| <= 2^exp).  Which of the many such spellings repr picks (the shortest) is NOT modelled.
+        """
+        from . import strings
+        r = strings.SymStr(None, P.fresh_name('str(float)'))
+        d = strings.parse_vars(P, r, 'dec', 10)
+        sg, E, c, exp = self._fdecode(v)
+        P.assume(d['matches'] == (E != 2047), fact=True)
+        P.assume(z3.Implies(d['matches'], z3.And((d['sign'] == 2) == (sg == 1), d['sign'] != 1,
+                                                 self._near(self._mag10(d), c, exp))), fact=True)
+        return r
+
+    @staticmethod
+    def _mag10(d):
+        """|den10| of a decimal decomposition as a z3 real (same formula as spec/c06.py den10_of)"""
+        I, F, E_ = d['I'], d['F'], d['E']
+        ten = z3.IntVal(10)
+        mant = z3.ToReal(I.val) + z3.ToReal(F.val) / z3.ToReal(theory.ipow(ten, F.len))
+        return z3.If(d['esign'] == 2, mant / z3.ToReal(theory.ipow(ten, E_.val)), mant * z3.ToReal(theory.ipow(ten, E_.val)))
+
+    @staticmethod
+    def _near(x, c, exp):
+        """necessary condition for `c * 2^exp` being the binary64 nearest to the real x >= 0: 2*|x - c*2^exp| <= 2^exp"""
+        up = z3.ToReal(theory.pow2(exp))
+        dn = z3.ToReal(theory.pow2(-exp))
+        return z3.If(exp >= 0,
+                     z3.And(2 * (x - z3.ToReal(c) * up) <= up, 2 * (z3.ToReal(c) * up - x) <= up),
+                     z3.And(2 * (x * dn - z3.ToReal(c)) <= 1, 2 * (z3.ToReal(c) - x * dn) <= 1))
+
+    def s_float_rounds_to(self, P, x, v):
+        """speclib.float_rounds_to(x, v): the float v is the binary64 nearest to the rational x >= 0 (round to nearest,
+        overflow to inf).  Symbolically only the NECESSARY condition |x - v| <= ulp/2 (finite v) resp. x >= 2^1023 (inf)
+        is used: sound as an assumption; counterexamples are re-checked natively with the exact relation."""
+        if isinstance(v, float) and not is_z3(x):
+            import speclib
+            return speclib.float_rounds_to(x, v)        # all concrete: the exact native relation
+        if isinstance(v, float):
+            v = SymFloat(z3.IntVal(int.from_bytes(__import__('struct').pack('<d', v), 'little')))
+        if not isinstance(v, SymFloat):
+            return False
+        sg, E, c, exp = self._fdecode(v)
+        M = v.bits % (1 << 52)
+        xr = as_z3real(x)
+        return simp(z3.And(sg == 0, z3.If(E == 2047, z3.And(M == 0, xr >= z3.RealVal(2 ** 1023)), self._near(xr, c, exp))))
 
     def m_float_as_integer_ratio(self, P, recv):
         if isinstance(recv, float):
@@ -775,3 +875,100 @@ class Intrinsics:
         if not is_z3(a) and not is_z3(b):
             return Fraction(a) / Fraction(b)
         return simp(as_z3real(a) / as_z3real(b))
+
+    # ----------------------------------------------------- numeral strings (C06)
+    def x_re_compile(self, P, pattern, *flags):
+        from .strings import RegexV
+        if flags or not isinstance(pattern, str):
+            raise Unsupported('re.compile with flags / non-literal pattern')
+        return RegexV(pattern)
+
+    def x_re_fullmatch(self, P, rx, s, *flags):
+        from . import strings
+        if flags:
+            raise Unsupported('re.fullmatch with flags')
+        return strings.fullmatch(P, rx, s)
+
+    def m_match_group(self, P, recv, k=0):
+        if is_z3(k) or not isinstance(k, int) or not 0 <= k < len(recv.groups):
+            raise Unsupported('match.group with a symbolic / out-of-range index')
+        return recv.groups[k]
+
+    def m_symstr_strip(self, P, recv, *a):
+        if a or recv.segs is not None:
+            raise Unsupported('strip of a constructed symbolic string')
+        return recv      # (T3) surrounding whitespace is not modelled
+
+    m_symstr_lstrip = m_symstr_strip
+    m_symstr_rstrip = m_symstr_strip
+
+    def m_symstr_split(self, P, recv, *a):
+        from . import strings
+        return strings.split(P, recv, *a)
+
+    def m_symstr_startswith(self, P, recv, x):
+        from . import strings
+        return strings.startswith(P, recv, x)
+
+    def m_str_lstrip(self, P, recv, *a):
+        return recv.lstrip(*a)
+
+    def m_str_rstrip(self, P, recv, *a):
+        return recv.rstrip(*a)
+
+    def _groups(self, P, s, kind):
+        from . import strings
+        import speclib
+        if isinstance(s, str):
+            return getattr(speclib, kind + '_groups')(s)
+        if isinstance(s, strings.SymStr) and s.name is not None:
+            return strings.groups_of(P, s, kind)
+        raise Unsupported(f'{kind}_groups of {s!r}')
+
+    def s_dec_groups(self, P, s):
+        return self._groups(P, s, 'dec')
+
+    def s_hex_groups(self, P, s):
+        return self._groups(P, s, 'hex')
+
+    def s_dval(self, P, d, base):
+        from .strings import DigitStr
+        import speclib
+        if isinstance(d, str):
+            return speclib.dval(d, base)
+        if isinstance(d, DigitStr) and d.base == base:
+            return d.val
+        raise Unsupported(f'dval({d!r}, {base})')
+
+    def s_dlen(self, P, d):
+        from .strings import DigitStr
+        if isinstance(d, str):
+            return len(d)
+        if isinstance(d, DigitStr):
+            return d.len
+        raise Unsupported(f'dlen({d!r})')
+
+    def s_frac_den(self, P, x):
+        """denominator of a rational (speclib.frac_den): 1 for an int, x.denominator for a Fraction"""
+        if is_intlike(x):
+            return 1
+        if isinstance(x, Fraction):
+            return x.denominator
+        if is_sym_real(x):
+            return self.ex.frac_part(P, x, 'denominator')
+        raise Unsupported(f'frac_den({x!r})')
+
+    def s_frac_num(self, P, x):
+        if is_intlike(x):
+            return as_int(x)
+        if isinstance(x, Fraction):
+            return x.numerator
+        if is_sym_real(x):
+            return self.ex.frac_part(P, x, 'numerator')
+        raise Unsupported(f'frac_num({x!r})')
+
+    def s_cons_name(self, P, v):
+        """speclib.cons_name: class name of a (Python ast) node"""
+        if type(v).__name__ == 'FreeCons':
+            return v.name.split('.')[-1]
+        return self.s_cls_name(P, v)
